@@ -64,7 +64,7 @@ func c16Names(thorough bool) []string {
 
 func C16(r *ck.Run) {
 	requireInstrumented()
-	r.Rule("(a) every string of length <= 4 over {a,z,A,0,9,'.','-','_'} plus boundary lengths and shaped names through IsValidBucketName and (stride) through PUT /name, against the S3 naming predicate; (b) CreateBucket on every existing-bucket state (written to, configured but never written to, or a directory that did not come into being through the gateway) × creator × headers, and ListBuckets over every population of <= 4 buckets of 3 owners (two of whose access keys differ in letter case only) × prefix × max-buckets × token walk for user and admin callers; (c) ACL documents (one grantee in several grants, the owner's own grant, written back as read) read back before and after a restart, a deleted bucket re-created under another owner on every metadata store (no setting survives), DELETE / PUT with every bucket sub-resource the gateway does not implement (bucket and settings stay), and breadth-first search over put/get/delete of every bucket setting (tags, policy, ACL, ownership controls, versioning, lock configuration) with restarts, read back after every step, and DeleteBucket on every non-empty state; (d) every interleaving with bounded preemptions of DeleteBucket against PutObject / nested PutObject / CreateMultipartUpload / UploadPart / CompleteMultipartUpload / CreateBucket / PutBucketTagging on real posix backends; distinct = distinct name / population+query / state / schedule")
+	r.Rule("(a) every string of length <= 4 over {a,z,A,0,9,'.','-','_'} plus boundary lengths and shaped names through IsValidBucketName and (stride) through PUT /name, against the S3 naming predicate; (b) CreateBucket on every existing-bucket state (written to, configured but never written to, or a directory that did not come into being through the gateway) × creator × headers, and ListBuckets over every population of <= 4 buckets of 3 owners (two of whose access keys differ in letter case only) × prefix × max-buckets × token walk for user and admin callers; (c) ACL documents (one grantee in several grants, the owner's own grant, written back as read) read back before and after a restart, a deleted bucket re-created under another owner on every metadata store (no setting survives), DELETE / PUT with every bucket sub-resource the gateway does not implement (bucket and settings stay), and breadth-first search over put/get/delete of every bucket setting (tags, policy, ACL, ownership controls, versioning, lock configuration) with restarts, read back after every step, and DeleteBucket on every non-empty state; (d) every interleaving with bounded preemptions of DeleteBucket against PutObject / nested PutObject / CreateMultipartUpload / UploadPart / CompleteMultipartUpload / CreateBucket (also followed by versioned uploads, on versioning and sidecar configurations) / PutBucketTagging on real posix backends; distinct = distinct name / population+query / state / schedule")
 	r.Assume("reserved bucket-name prefixes and suffixes (xn--, -s3alias, ...) may be accepted or refused; single syscalls are atomic; (d) runs at the backend seam (the ACL lookup of the HTTP layer is not part of the interleaving)")
 	names := c16Names(r.Thorough())
 	r.Sharded(16, func() {
@@ -753,6 +753,8 @@ func c16Schedules(r *ck.Run) {
 		Op   func(st *pxStore, c map[string]string) error
 		// Acked: after a successful Op, is the acknowledged result still there? (scheduler inactive)
 		Acked func(st *pxStore, c map[string]string) (bool, string)
+		// Cfgs: storage configurations of this scenario (default: xattr with and without O_TMPFILE)
+		Cfgs []pxCfg
 	}
 	v1 := mkval(1)
 	objThere := func(key string) func(st *pxStore, c map[string]string) (bool, string) {
@@ -787,6 +789,35 @@ func c16Schedules(r *ck.Run) {
 		{Name: "DeleteBucket|CreateBucket", Op: func(st *pxStore, c map[string]string) error {
 			return st.B.CreateBucket(st.ctx(), &s3.CreateBucketInput{Bucket: sp("dbk")}, []byte(`{"Owner":"acc1","Grantees":[]}`))
 		}},
+		// the name is taken again while the deletion is still finishing: what the new bucket is given (owner, versioning,
+		// a preserved version) must not be lost to the tail of the old bucket's deletion
+		{Name: "DeleteBucket|CreateBucket and versioned uploads", Cfgs: []pxCfg{{Versioning: true}, {Versioning: true, Sidecar: true}}, Op: func(st *pxStore, c map[string]string) error {
+			if err := st.B.CreateBucket(st.ctx(), &s3.CreateBucketInput{Bucket: sp("dbk")}, []byte(`{"Owner":"acc2","Grantees":[]}`)); err != nil {
+				return err
+			}
+			if err := st.B.PutBucketVersioning(st.ctx(), "dbk", types.BucketVersioningStatusEnabled); err != nil {
+				return err
+			}
+			if err := st.put(st.B, "dbk", "k", mkval(0)); err != nil {
+				return err
+			}
+			return st.put(st.B, "dbk", "k", v1)
+		}, Acked: func(st *pxStore, c map[string]string) (bool, string) {
+			if b, err := st.B.GetBucketAcl(st.ctx(), &s3.GetBucketAclInput{Bucket: sp("dbk")}); err != nil || !strings.Contains(string(b), "acc2") {
+				return false, "the new bucket's owner record is gone: " + errShort(err)
+			}
+			empty := ""
+			max := int32(100)
+			lv, err := st.B.ListObjectVersions(st.ctx(), &s3.ListObjectVersionsInput{Bucket: sp("dbk"), Prefix: &empty, Delimiter: &empty, KeyMarker: &empty, VersionIdMarker: &empty, MaxKeys: &max})
+			if err != nil || len(lv.Versions) != 2 {
+				n := -1
+				if err == nil {
+					n = len(lv.Versions)
+				}
+				return false, fmt.Sprintf("the new bucket lists %d versions of its two acknowledged uploads: %s", n, errShort(err))
+			}
+			return true, ""
+		}},
 	}
 	if r.Thorough() {
 		scns = append(scns, scn{Name: "DeleteBucket|UploadPart", Prep: mp, Op: func(st *pxStore, c map[string]string) error {
@@ -814,7 +845,11 @@ func c16Schedules(r *ck.Run) {
 		if !r.Mine(si) {
 			continue
 		}
-		for _, cfg := range []pxCfg{{}, {NoTmp: true}} {
+		cfgs := []pxCfg{{}, {NoTmp: true}}
+		if sc.Cfgs != nil {
+			cfgs = sc.Cfgs
+		}
+		for _, cfg := range cfgs {
 			st := newPxStore("c16", cfg)
 			var delErr, opErr error
 			var ctxm map[string]string
@@ -877,9 +912,9 @@ func c16Schedules(r *ck.Run) {
 					if b, err := st.B.GetBucketAcl(st.ctx(), &s3.GetBucketAclInput{Bucket: sp("dbk")}); err != nil || len(b) == 0 {
 						kind += "-without-acl"
 					}
-					if sc.Name == "DeleteBucket|CreateBucket" && opErr == nil && opCall > delRet {
+					if strings.HasPrefix(sc.Name, "DeleteBucket|CreateBucket") && opErr == nil && opCall > delRet {
 						// created again after the delete had finished: legitimate
-					} else if sc.Name == "DeleteBucket|CreateBucket" && opErr == nil && !strings.HasSuffix(kind, "without-acl") {
+					} else if strings.HasPrefix(sc.Name, "DeleteBucket|CreateBucket") && opErr == nil && !strings.HasSuffix(kind, "without-acl") {
 						// both acknowledged, the new bucket is complete: explainable as delete-then-create
 					} else {
 						r.Violation(ck.JoinSig("schedule", sc.Name, kind), detail(out))
